@@ -80,6 +80,8 @@ impl Regions {
     pub(crate) fn set_min_len(&mut self, len: usize) -> Result<()> {
         let file_len = self.file_len()?;
         if file_len < len {
+            #[cfg(anydb_verif)]
+            crate::verif_tap::emit(crate::verif_tap::Event::SetLen { file: 1, len });
             self.file.set_len(len as u64)?;
             self.mmap = create_mmap(&self.file)?;
         }
@@ -175,18 +177,24 @@ impl Regions {
 
     /// Schedules metadata writeback. Caller must follow with `sync_data()`.
     pub(crate) fn flush(&self) -> Result<()> {
+        #[cfg(anydb_verif)]
+        crate::verif_tap::emit(crate::verif_tap::Event::FlushAsync { file: 1, offset: 0, len: usize::MAX });
         self.mmap.flush_async()?;
         Ok(())
     }
 
     pub(crate) fn sync_data(&self) -> Result<()> {
         self.file.sync_data()?;
+        #[cfg(anydb_verif)]
+        crate::verif_tap::emit(crate::verif_tap::Event::SyncData { file: 1 });
         Ok(())
     }
 
     pub(crate) fn write_at(&self, index: usize, data: &[u8]) {
         debug_assert_eq!(data.len(), SIZE_OF_REGION_METADATA);
         let offset = index * SIZE_OF_REGION_METADATA;
+        #[cfg(anydb_verif)]
+        crate::verif_tap::emit(crate::verif_tap::Event::MmapWrite { file: 1, offset, len: data.len() });
         write_to_mmap(&self.mmap, offset, data);
     }
 
